@@ -28,6 +28,14 @@ class CreatorFailed(LookupError):
 
 
 FAIL_MARK = "c09-creator-failed"
+FAIL_CLASSES = {"LookupError": LookupError, "TypeError": TypeError, "ValueError": ValueError, "RuntimeError": RuntimeError,
+                "KeyError": KeyError, "AttributeError": AttributeError, "ZeroDivisionError": ZeroDivisionError,
+                "IndexError": IndexError}
+CREATORS = ("none", "func", "opt", "star", "obj", "cmeth")
+
+
+def failure(o, n):
+    return FAIL_CLASSES[o[1] if len(o) > 1 else "LookupError"](FAIL_MARK, n)
 
 
 class World:
@@ -40,15 +48,20 @@ class World:
         self.refs = {}           # serial -> weakref
         self.bits = {}           # serial -> (cls, truthy, eqnone)
         self.bypass = []         # constructor of a class WITH creator invoked directly
+        self.subclasses = {}     # cls index -> a proper subclass (creators may return instances of it)
 
     def outcome(self, n, idx):
         sc = self.case["script"]
         o = list(sc[n]) if n < len(sc) else list(self.case["dflt"])
         spec = self.case["classes"][idx]
         if o[0] == "made":
-            o = ["made", bool(o[1]) or spec["flavour"] == "plain", bool(o[2]) and spec["eq"]]
+            # ["made", truthy, eqnone, subclass]: only a creator can hand out an instance of a proper subclass
+            o = ["made", bool(o[1]) or spec["flavour"] == "plain", bool(o[2]) and spec["eq"],
+                 bool(o[3]) if len(o) > 3 and spec["creator"] != "none" else False]
         elif o[0] == "wrong" and spec["creator"] == "none":
-            o = ["fail"]
+            o = ["fail", "LookupError"]
+        elif o[0] == "fail":
+            o = ["fail", o[1] if len(o) > 1 and o[1] in FAIL_CLASSES else "LookupError"]
         return o
 
     def invoke(self, idx):
@@ -63,6 +76,10 @@ class World:
 
     def build(self, idx, n, o):
         cls = self.classes[idx]
+        if len(o) > 3 and o[3]:
+            if idx not in self.subclasses:
+                self.subclasses[idx] = type("Sub%d" % idx, (cls,), {})
+            cls = self.subclasses[idx]
         obj = object.__new__(cls)
         obj._serial, obj._truthy, obj._eqnone = n, o[1], o[2]
         self.refs[n] = weakref.ref(obj)
@@ -80,7 +97,7 @@ def make_class(world, idx, spec):
             world.bypass.append(idx)
         n, o = world.invoke(idx)
         if o[0] != "made":
-            raise LookupError(FAIL_MARK, n)
+            raise failure(o, n)
         return world.build(idx, n, o)
 
     def ident(self):
@@ -102,18 +119,25 @@ def make_class(world, idx, spec):
     cls = type("Cls%d" % idx, (object,), ns)
     cls = srv.expose(cls)
 
-    def creator(clazz):
+    def creator(clazz=None):
         n, o = world.invoke(idx)
         if o[0] == "fail":
-            raise LookupError(FAIL_MARK, n)
+            raise failure(o, n)
         if o[0] == "wrong":
             return object()
         return world.build(idx, n, o)
     cr = None
-    if spec["creator"] == "func":
+    kind = spec["creator"]
+    if kind == "func":                       # f(clazz)
+        cr = lambda clazz: creator(clazz)    # noqa: E731
+    elif kind == "opt":                      # f(clazz=None): also callable without arguments
         cr = creator
-    elif spec["creator"] == "obj":
-        cr = type("Creator", (object,), {"__call__": lambda self, clazz: creator(clazz)})()
+    elif kind == "star":                     # f(*a)
+        cr = lambda *a: creator(*a[:1])      # noqa: E731
+    elif kind == "obj":                      # callable object, class argument optional
+        cr = type("Creator", (object,), {"__call__": lambda self, clazz=None: creator(clazz)})()
+    elif kind == "cmeth":                    # bound classmethod of a factory class
+        cr = type("Factory", (object,), {"make": classmethod(lambda fcls, clazz=None: creator(clazz))}).make
     if spec["mode"] == "default":
         assert cr is None, "a class registered without @behavior cannot have a creator"
     else:
@@ -187,19 +211,25 @@ def call_result(fn):
     try:
         r = fn()
         return ["served", r]
-    except LookupError as x:
+    except Exception as x:       # noqa
         if x.args and x.args[0] == FAIL_MARK:
             return ["failed", False]
-        return ["error", "LookupError:" + str(x)[:80]]
-    except TypeError as x:
+        if not isinstance(x, TypeError):
+            return ["error", type(x).__name__ + ":" + str(x)[:80]]
         if "different type" in str(x):
             return ["failed", True]
         return ["error", "TypeError:" + str(x)[:80]]
-    except Exception as x:       # noqa
-        return ["error", type(x).__name__ + ":" + str(x)[:80]]
 
 
 ENDINGS = ("orderly", "reset", "stale", "error")
+
+
+def admin_result(fn):
+    try:
+        fn()
+        return ["admin"]
+    except Exception as x:       # noqa
+        return ["error", type(x).__name__ + ":" + str(x)[:80]]
 
 
 def ending_of(ev):
@@ -247,13 +277,20 @@ def run_impl(case, tree="/repo"):
     obs = {"obs": [], "dropped": [], "errors": []}
     try:
         for i, cls in enumerate(world.classes):
-            daemon.register(cls, "cls%d" % i)
-        uri0 = daemon.uriFor("cls0")
+            daemon.register(cls, "id%d" % i)          # initially class i is known by id i
+        import Pyro5.core
+        uri0 = daemon.uriFor(Pyro5.core.DAEMON_NAME)   # the proxies connect to the daemon object; calls name their target id
         proxies, sconns, lconns = {}, {}, {}
         with loopback.Loopback(daemon) as net:
             for ev in case["hist"]:
-                if ev[0] == "call":
-                    _, k, c = ev
+                if ev[0] == "reg":
+                    _, c, i, force = ev
+                    obs["obs"].append(admin_result(lambda: daemon.register(world.classes[c], "id%d" % i, force=bool(force))))
+                elif ev[0] == "unreg":
+                    obs["obs"].append(admin_result(lambda: daemon.unregister("id%d" % ev[1])))
+                elif ev[0] == "call":
+                    k, c = ev[1], ev[2]
+                    oid = "id%d" % (ev[3] if len(ev) > 3 else c)
                     if k not in proxies:
                         cid = net._next
                         p = Pyro5.client.Proxy(uri0)
@@ -262,7 +299,7 @@ def run_impl(case, tree="/repo"):
                         sconns[k] = net.conns[cid].sconn
                         lconns[k] = net.conns[cid]
                     p = proxies[k]
-                    r = call_result(lambda: p._pyroInvoke("ident", [], {}, objectId="cls%d" % c))
+                    r = call_result(lambda: p._pyroInvoke("ident", [], {}, objectId=oid))
                     if r[0] == "served":
                         b = world.bits.get(r[1])
                         r = ["served", r[1]] + (list(b) if b else [c, True, False])
@@ -321,7 +358,7 @@ def run_impl(case, tree="/repo"):
                         "done": [w.done for w in ctl.workers] if ctl else [],
                         "log": [[i, list(o)] for i, o in world.log], "singles": singles}
             obs.update(snapshot())
-            nconn = 1 + max([ev[1] for ev in case["hist"]] + [-1])
+            nconn = 1 + max([ev[1] for ev in case["hist"] if ev[0] in ("call", "close")] + [-1])
             sess = []
             for k in range(nconn):
                 row = []
@@ -381,7 +418,9 @@ def oracle(case, obs):
         if ev[0] == "close":
             epoch[ev[1]] = epoch.get(ev[1], 0) + 1
             continue
-        _, k, c = ev
+        if ev[0] in ("reg", "unreg"):
+            continue
+        k, c = ev[1], ev[2]
         calls.append((c, o))
         if o[0] != "served":
             continue
@@ -466,12 +505,18 @@ def c_obs(o):
         return "Failed %s" % cbool(o[1])
     if o[0] == "closed":
         return "Closed"
+    if o[0] == "admin":
+        return "Admin"
     return "Failed false"      # unexpected exception: reported by the oracle; the model will disagree as well
 
 
 def c_event(e):
     if e[0] == "call":
         return "Call %s %s" % (cnat(e[1]), cnat(e[2]))
+    if e[0] == "reg":
+        return "Reg %s %s %s" % (cnat(e[1]), cnat(e[2]), cbool(e[3]))
+    if e[0] == "unreg":
+        return "Unreg %s" % cnat(e[1])
     return "Close %s %s" % (cnat(e[1]), {"orderly": "EOrderly", "reset": "EReset", "stale": "EStale", "error": "EError"}[ending_of(e)])
 
 
@@ -500,16 +545,17 @@ def c_case(case, obs):
 # ---------------------------------------------------------------- generators
 def gen_outcome(rng):
     k = rng.random()
+    sub = rng.random() < 0.3            # creators may return an instance of a proper subclass
     if k < 0.36:
-        return ["made", True, False]
+        return ["made", True, False, sub]
     if k < 0.62:
-        return ["made", False, False]
+        return ["made", False, False, sub]
     if k < 0.72:
-        return ["made", True, True]
+        return ["made", True, True, sub]
     if k < 0.80:
-        return ["made", False, True]
+        return ["made", False, True, sub]
     if k < 0.91:
-        return ["fail"]
+        return ["fail", rng.choice(["TypeError", "TypeError", "TypeError"] + sorted(FAIL_CLASSES))]
     return ["wrong"]
 
 
@@ -517,7 +563,7 @@ def gen_class(rng, mode=None):
     c = {"mode": mode or rng.choice(["single", "single", "session", "session", "percall", "default"]),
             "flavour": rng.choice(["plain", "len", "len", "bool", "bool"]),
             "eq": rng.random() < 0.4,
-            "creator": rng.choice(["none", "none", "func", "obj"])}
+            "creator": rng.choice(("none",) + CREATORS)}
     if c["mode"] == "default":
         c["creator"] = "none"
     return c
@@ -540,11 +586,30 @@ def gen_case(rng, conc=None):
     nconn = rng.randint(1, 3)
     hot = rng.randrange(ncls)
     hist = []
+    reg = {i: i for i in range(ncls)}        # object id -> class, as the daemon should have it
+    nids = ncls + 2
+    admin = rng.random() < 0.5               # half of the histories register / unregister classes under several ids
     for _ in range(rng.choice([0, 2, 4, 6, 9, 12])):
-        if rng.random() < 0.18:
+        r = rng.random()
+        if admin and (r < 0.22 or not reg):
+            c, i = (hot if rng.random() < 0.6 else rng.randrange(ncls)), rng.randrange(nids)
+            if r < 0.11 and reg and rng.random() < 0.7:
+                i = rng.choice(sorted(reg))
+                if rng.random() < 0.6 and hot in reg.values():
+                    i = rng.choice(sorted(k for k, v in reg.items() if v == hot))
+                hist.append(["unreg", i])
+                del reg[i]
+            else:
+                free = c not in reg.values() and i not in reg
+                hist.append(["reg", c, i, not free or rng.random() < 0.5])
+                reg[i] = c
+        elif r < 0.36:
             hist.append(["close", rng.randrange(nconn), rng.choice(ENDINGS)])
-        else:
-            hist.append(["call", rng.randrange(nconn), hot if rng.random() < 0.5 else rng.randrange(ncls)])
+        elif reg:
+            ids = sorted(reg)
+            hotids = [i for i in ids if reg[i] == hot]
+            i = rng.choice(hotids) if hotids and rng.random() < 0.5 else rng.choice(ids)
+            hist.append(["call", rng.randrange(nconn), reg[i], i])
     calls, sched = [], []
     if conc if conc is not None else rng.random() < 0.6:
         singles = [i for i, c in enumerate(classes) if c["mode"] == "single"]
@@ -578,6 +643,25 @@ def family_cases():
                     for bits in ((T, F), (F, F), (T, T), (F, T)):
                         out.append({"classes": [cls(mode, flavour, eq, creator)], "script": [], "dflt": ["made", bits[0], bits[1]],
                                     "hist": hist, "calls": [], "sched": []})
+    # one class known by several ids, unregistered and registered again; calls addressed to each id
+    adm = [["call", 0, 0, 0], ["reg", 0, 5, T], ["call", 1, 0, 5], ["call", 0, 0, 0], ["unreg", 0], ["call", 0, 0, 5], ["call", 1, 0, 5],
+           ["unreg", 5], ["reg", 0, 0, F], ["call", 0, 0, 0], ["call", 1, 0, 0], ["reg", 0, 6, T], ["unreg", 0], ["call", 0, 0, 6],
+           ["close", 0, "orderly"], ["call", 0, 0, 6]]
+    for mode in ("single", "session", "percall", "default"):
+        for creator in (CREATORS if mode != "default" else ("none",)):
+            for bits in ((T, F, F), (F, T, F), (T, F, T)):
+                out.append({"classes": [cls(mode, "len", T, creator), cls("single", "plain", F, "none")], "script": [],
+                            "dflt": ["made", bits[0], bits[1], bits[2]], "hist": adm, "calls": [], "sched": []})
+    # every creator signature shape x failure class: fail first then succeed / always fail; subclass instances
+    seq = [["call", 0, 0], ["call", 0, 0], ["call", 1, 0], ["call", 0, 0], ["close", 0, "orderly"], ["call", 0, 0], ["call", 1, 0]]
+    for mode in ("single", "session", "percall"):
+        for creator in CREATORS:
+            for exc in sorted(FAIL_CLASSES):
+                out.append({"classes": [cls(mode, "bool", F, creator)], "script": [["fail", exc], ["made", T, F, T], ["fail", exc], ["fail", exc]],
+                            "dflt": ["made", T, F, F], "hist": seq, "calls": [], "sched": []})
+            out.append({"classes": [cls(mode, "plain", F, creator)], "script": [], "dflt": ["fail", "TypeError"], "hist": seq, "calls": [], "sched": []})
+            out.append({"classes": [cls(mode, "len", T, creator)], "script": [["made", T, F, T], ["made", F, F, F], ["made", T, T, T]],
+                        "dflt": ["made", T, F, T], "hist": seq, "calls": [], "sched": []})
     # failing creators: fail, fail again, succeed, then stable
     for mode in ("single", "session", "percall"):
         for creator in ("none", "func"):
@@ -617,6 +701,8 @@ def execute(ctx, cases, model_ok, res):
         for ev in case["hist"]:
             if ev[0] == "close":
                 res.count("end:" + ending_of(ev))
+            elif ev[0] in ("reg", "unreg"):
+                res.count("admin:" + ev[0])
         for spec in case["classes"]:
             res.count("class:%s/%s%s/%s" % (mode_of(spec), spec["flavour"], "+eq" if spec["eq"] else "", spec["creator"]))
         for o in obs["obs"] + [r for rs in obs["final"]["results"] for _, r in rs]:
@@ -654,8 +740,8 @@ def run(ctx, model_ok=True):
     cases = all_cases(ctx)
     execute(ctx, cases, model_ok, res)
     res.rule = ("1-4 classes (mode single/session/percall/unspecified; instances plain, falsy-capable via __len__ or __bool__, "
-                "optionally with __eq__/__hash__ that can equal None and make all instances equal; creator none/function/callable object); "
-                "creator script per invocation (truthy/falsy/eq-None instance, raise, wrong type); history of calls/closes on up to 3 "
+                "optionally with __eq__/__hash__ that can equal None and make all instances equal; creator none / f(clazz) / f(clazz=None) / f(*a) / callable object / bound classmethod); "
+                "creator script per invocation (truthy/falsy/eq-None instance, of the class itself or of a proper subclass; raise one of 8 exception classes incl. TypeError; wrong type); register/unregister events (a class under several ids, unregistered, registered again, calls addressed to each id); history of calls/closes on up to 3 "
                 "connections through real proxies (loopback), then 2-3 threads calling _getInstance on single classes under a schedule "
                 "(families: all shapes x modes x creators; failing creators; every placement of two preemption points; then seeded random). "
                 "non-trivial = at least two calls; distinct = case hash")
